@@ -313,6 +313,7 @@ func Observe(seg segment.Segment, pr *Probes) (o *Obs) {
 }
 
 func observeDicts(seg segment.Segment, pr *Probes, o *Obs) error {
+	var keyBuf []byte
 	fields := append([]string(nil), pr.Fields...)
 	sort.Strings(fields)
 	var prePL segment.PostingsList
@@ -342,7 +343,8 @@ func observeDicts(seg segment.Segment, pr *Probes, o *Obs) error {
 				return fmt.Errorf("Contains: %v", e)
 			}
 			od.Has = append(od.Has, OHas{K: B(t), R: r})
-			pl, e := d.PostingsList([]byte(t), nil, nil)
+			keyBuf = append(keyBuf[:0], t...) // one buffer for the key bytes of consecutive look-ups
+			pl, e := d.PostingsList(keyBuf, nil, nil)
 			if e != nil {
 				return fmt.Errorf("PostingsList(%q,%q): %v", f, t, e)
 			}
@@ -550,10 +552,34 @@ func observeThes(seg segment.Segment, pr *Probes, o *Obs) error {
 			}
 			ot.Terms = append(ot.Terms, B(ent.Term))
 		}
+		// two listings of the same thesaurus alive at once - a complete one and a range - advanced in turn:
+		// the complete one must enumerate what the sequential listing did
+		{
+			full := th.AutomatonIterator(nil, nil, nil)
+			part := th.AutomatonIterator(nil, []byte("a"), []byte("c"))
+			inter := []B{}
+			for fe, pe := full, part; fe != nil; {
+				ent, e := fe.Next()
+				if e != nil || ent == nil {
+					break
+				}
+				inter = append(inter, append(B{}, ent.Term...))
+				if pe != nil {
+					if x, e := pe.Next(); e != nil || x == nil {
+						pe = nil
+					}
+				}
+			}
+			if js(inter) != js(ot.Terms) {
+				o.Errs = append(o.Errs, OErr{Asp: "thes", Msg: fmt.Sprintf("a listing interleaved with a second one of the same thesaurus enumerates %s, alone %s", js(inter), js(ot.Terms))})
+			}
+		}
 		terms := append([]string(nil), pr.Thes[name]...)
 		sort.Strings(terms)
+		var scratch []byte // one buffer for the key bytes of consecutive look-ups, as callers that recycle buffers do
 		for _, t := range terms {
-			r, e := th.Contains([]byte(t))
+			scratch = append(scratch[:0], t...)
+			r, e := th.Contains(scratch)
 			if e != nil {
 				return fmt.Errorf("thesaurus Contains: %v", e)
 			}
@@ -569,9 +595,11 @@ func observeThes(seg segment.Segment, pr *Probes, o *Obs) error {
 					var sl segment.SynonymsList
 					var e error
 					if pass == 0 {
-						sl, e = th.SynonymsList([]byte(t), bmOf(ex), nil)
+						scratch = append(scratch[:0], t...)
+						sl, e = th.SynonymsList(scratch, bmOf(ex), nil)
 					} else {
-						preSL, e = th.SynonymsList([]byte(t), bmOf(ex), preSL)
+						scratch = append(scratch[:0], t...)
+						preSL, e = th.SynonymsList(scratch, bmOf(ex), preSL)
 						sl = preSL
 					}
 					if e != nil {
